@@ -125,7 +125,7 @@ func newSimPeer(name, class string, node *chainkit.Node) *simPeer {
 		if n >= 5 {
 			break
 		}
-		if i > 5000 {
+		if i > 120_000 { // (wall clock outside a bubble: generous on a loaded machine)
 			panic("p2p/server.Run did not register its handlers")
 		}
 		time.Sleep(time.Millisecond)
